@@ -307,6 +307,8 @@ pub fn expect_of(sc: &Scenario) -> Expect {
 }
 
 pub struct AppRun {
+    /// everything on stdout, log lines included
+    pub full: Vec<u8>,
     pub ending: Ending,
     /// stdout after the header lines
     pub out: Vec<u8>,
@@ -334,7 +336,7 @@ pub fn app_run(sc: &Scenario, level: u8, tick_budget: u64, header_lines: usize) 
     });
     let _ = std::fs::remove_file(&path);
     let (header, rest) = split_header(&world.out, header_lines);
-    AppRun { ending, out: rest, header, err: world.err.clone(), world }
+    AppRun { full: world.out.clone(), ending, out: rest, header, err: world.err.clone(), world }
 }
 
 /// Split off the tool's own leading log lines (complete lines carrying the `==> ` marker); how many
@@ -352,6 +354,43 @@ pub fn split_header(out: &[u8], _n: usize) -> (Vec<String>, Vec<u8>) {
         }
     }
     (header, out[pos..].to_vec())
+}
+
+/// The program's stdout when the expected text is known: the tool's log lines are leading `==> ` lines, but
+/// a program may itself start its output with such a line; among the possible split points the one that
+/// makes the rest equal to (or, failing that, start like) the expectation is taken, otherwise all leading
+/// marker lines are dropped.
+pub fn program_stdout(full: &[u8], expected: &[u8]) -> Vec<u8> {
+    let mut cuts = vec![0usize];
+    let mut pos = 0usize;
+    while full[pos..].starts_with(b"==> ") {
+        match full[pos..].iter().position(|&b| b == b'\n') {
+            Some(e) => {
+                pos += e + 1;
+                cuts.push(pos);
+            }
+            None => break,
+        }
+    }
+    // at least one log line belongs to the tool if there is any
+    let from = if cuts.len() > 1 { 1 } else { 0 };
+    for &c in cuts[from..].iter() {
+        if &full[c..] == expected {
+            return full[c..].to_vec();
+        }
+    }
+    for &c in cuts[from..].iter().rev() {
+        if expected.starts_with(&full[c..]) && !full[c..].is_empty() {
+            return full[c..].to_vec();
+        }
+    }
+    full[*cuts.last().unwrap()..].to_vec()
+}
+
+impl AppRun {
+    pub fn out_for(&self, expected: &[u8]) -> Vec<u8> {
+        program_stdout(&self.full, expected)
+    }
 }
 
 /// stderr minus the trailing diagnostic lines ([error]/[note] markers)
@@ -398,8 +437,9 @@ pub fn app_layer(sc: &Scenario, out: &mut RunOut) -> Option<Violation> {
     if let Ending::Panic(m) = &r.ending {
         return Some(Violation::new("panic", "no panic", m.clone()));
     }
-    if r.out != ex.out {
-        return Some(Violation::new("app-stdout", lossy(&ex.out), lossy(&r.out)));
+    let shown = r.out_for(&ex.out);
+    if shown != ex.out {
+        return Some(Violation::new("app-stdout", lossy(&ex.out), lossy(&shown)));
     }
     let want: String;
     let ok = match &ex.halt {
@@ -453,7 +493,8 @@ pub fn real_run(sc: &Scenario, level: u8, tag: &str) -> crate::real::RealOut {
 /// Compare a real run with the model's expectation (terminating programs only).
 pub fn real_against_model(sc: &Scenario, ex: &Expect, level: u8, r: &crate::real::RealOut) -> Option<Violation> {
     let tag = |c: &str| format!("real-O{}-{}", level, c);
-    let (header, rest) = split_header(&r.stdout, if level == 0 { 2 } else { 3 });
+    let header: Vec<String> = Vec::new();
+    let rest = program_stdout(&r.stdout, &ex.out);
     let obs = || format!("{} ; stdout {:?} ; stderr {:?}", r.describe(), lossy(&rest), lossy(&r.stderr));
     if r.timed_out || r.signal.is_some() || r.status == Some(101) {
         return Some(Violation::new(&tag("crash"), "defined ending", obs()));
